@@ -164,7 +164,7 @@ func init() {
 		ID:    "C09",
 		Level: "model_checking",
 		Rule: "typed worlds: a dependency under 5 paths (plain, dotted, vendored, nested-vendored, root vendor directory) x import style {plain, alias, dot} x every role of a 28-role catalogue singly x 5 shadowing modes x with/without a second import of an equally named package x (single roles) 3 locations of the local package itself (plain; inside a vendor directory with the Decorator told the full path; same, told the stripped path), and every ordered pair of roles (quick: 2 shadowing modes; thorough: all 5, with/without the second import); " +
-			"only files that type-check are in the quantifier; oracle computed from go/types: an identifier carries the vendor-stripped path of its object's package iff the object is a package-level object of another package, else none (qualified selectors collapse onto one identifier); " +
+			"only files that type-check are in the quantifier; the same annotation is required from DecorateFile, from DecorateNode on every declaration alone and on a package node, from NewDecoratorFromPackage and from a Decorator configured through its fields; oracle computed from go/types: an identifier carries the vendor-stripped path of its object's package iff the object is a package-level object of another package, else none (qualified selectors collapse onto one identifier); " +
 			"the syntax-only resolver must agree on files without dot-imports and without shadowing, and must return an error for dot-imports and for two imports bound to one name, also when the same resolver instance is asked again about the same file; state = generated file; non-trivial = file with at least one remote reference",
 		Assumptions: []string{"go/types of this toolchain defines what an identifier denotes", "programs range over the role catalogue"},
 		Units: func(tier string) []string {
@@ -312,6 +312,34 @@ func c09Check(cs c09Case) (out core.Outcome, applicable bool, remote int) {
 		}
 		if a, b := identPaths(df), identPaths(df3); strings.Join(a, " ") != strings.Join(b, " ") {
 			return fail("field-configured-decorator-differs", "a Decorator configured through its Path and Resolver fields annotates differently from NewDecoratorWithImports:\n%v\n%v", a, b)
+		}
+	}
+	// other entry points of the same classification: DecorateNode on every top-level declaration alone and
+	// on a package node holding the file (neither hands the resolver a current file)
+	for i, decl := range af.Decls {
+		dn := decorator.NewDecoratorWithImports(chk.Fset, c09Locals[cs.Local].Given, gotypes.New(chk.Info.Uses))
+		var node dst.Node
+		var nerr error
+		if p := guard(func() { node, nerr = dn.DecorateNode(decl) }); p != "" || nerr != nil {
+			return fail("isolated-declaration-fails", "DecorateNode(declaration %d): panic %q error %v", i, p, nerr)
+		}
+		if a, b := identPathsOf(df.Decls[i]), identPathsOf(node); strings.Join(a, " ") != strings.Join(b, " ") {
+			return fail("isolated-declaration-differs", "declaration %d decorated alone is annotated differently from the same declaration inside its file:\nin file: %v\nalone:   %v", i, a, b)
+		}
+	}
+	{
+		dp := decorator.NewDecoratorWithImports(chk.Fset, c09Locals[cs.Local].Given, gotypes.New(chk.Info.Uses))
+		var node dst.Node
+		var nerr error
+		if p := guard(func() { node, nerr = dp.DecorateNode(&ast.Package{Name: "main", Files: map[string]*ast.File{"a.go": af}}) }); p != "" || nerr != nil {
+			return fail("package-node-fails", "DecorateNode(*ast.Package): panic %q error %v", p, nerr)
+		}
+		pf := node.(*dst.Package).Files["a.go"]
+		if pf == nil {
+			return fail("package-node-fails", "file missing in the decorated package")
+		}
+		if a, b := identPaths(df), identPaths(pf); strings.Join(a, " ") != strings.Join(b, " ") {
+			return fail("package-node-differs", "the file decorated as part of a package node is annotated differently:\nfile:    %v\npackage: %v", a, b)
 		}
 	}
 	// expected path per ast identifier
